@@ -149,6 +149,8 @@ class TdmsReader(object):
             self._verify_segment_start(segment)
             for chunk in segment.read_raw_data(self._file):
                 yield chunk
+                # The file may have been closed while this generator was suspended
+                self._ensure_open()
 
     def read_raw_data_for_channel(self, channel_path, offset=0, length=None):
         """ Read raw data for a single channel, chunk by chunk
@@ -230,6 +232,8 @@ class TdmsReader(object):
                 values_read += len(chunk) - skip
                 trim = 0 if values_read < length else values_read - length
                 yield _trim_channel_chunk(chunk, skip, trim)
+                # The file may have been closed while this generator was suspended
+                self._ensure_open()
 
             segment_index += 1
 
